@@ -765,6 +765,11 @@ def r_layout(f):
                     ((same(touched[0][0], pn_[0]) and same(touched[1][0], pn_[1])) or (same(touched[0][0], pn_[1]) and same(touched[1][0], pn_[0])))
                 if not rows_ok:
                     bad.append((("mutate", "swap_rows-rows", None, "rows %s" % ", ".join("row %r cols %r..+%r" % tt for tt in touched), b.line), P.conds))
+                elif len(pn_) == 2 and decide(cc, Cond("!=", pn_[0] - pn_[1])) is not True and decide(saturate(P.conds), Cond("!=", pn_[0] - pn_[1])) is not True:
+                    # the two rows are exchanged with a non-overlapping primitive and the offset of the second is computed from
+                    # their distance: the path must have established r1 != r2 (swap_rows(r, r) changes nothing - it must not
+                    # reach the raw exchange, where `(r2 - r1) * stride - num_cols` underflows)
+                    bad.append((("mutate", "swap_rows-same-row", None, "rows %r and %r without r1 != r2 on the path" % (pn_[0], pn_[1]), b.line), P.conds))
             if b.name == "row_pair_mut" and oc[0] == "ret":
                 # an implementor's own row_pair_mut returns exactly rows (r1, r2), whole and in argument order
                 pn_ = [Poly.atom(nm_) for loc_, nm_ in sorted(b.param_names().items()) if b.locals[loc_] == "usize"]
